@@ -50,80 +50,88 @@ def run(ctx) -> None:
     calendar_producers_rule(ctx, "R8")
 
     # ---------------------------------------------------------------- R1
-    inc = prog.function("v2version._incr_numeric")
-    ctx.visit(inc.fq)
-    cfg = cfgs.get(inc.fq)
-    pc = PathCond(cfg)
-    cur = "cur_vinfo"
-    ctx.require(cur in inc.params, "_incr_numeric lost its cur_vinfo parameter")
-    facts: T.List[T.Tuple[str, str, BF, ast.AST]] = []
-    for n in cfg.nodes:
-        if n.kind != "stmt" or not isinstance(n.ast, ast.Assign) or n.id not in cfg.reachable():
-            continue
-        v = n.ast.value
-        if isinstance(v, ast.Call) and isinstance(v.func, ast.Attribute) and v.func.attr == "_replace" and unparse(v.func.value) == cur \
-                and unparse(n.ast.targets[0]) == cur:
-            for kw in v.keywords:
-                ctx.require(kw.arg is not None, "_incr_numeric: _replace(**...) not enumerated")
-                e = shapes.resolve_alias(inc, kw.value)
-                if isinstance(e, ast.BinOp) and isinstance(e.op, ast.Add) and unparse(e.left) == f"{cur}.{kw.arg}" and isinstance(e.right, ast.Constant):
-                    kind = f"+{e.right.value}"
-                elif isinstance(e, ast.BinOp) and isinstance(e.op, ast.Add) and isinstance(e.left, ast.Constant) and unparse(e.right) == f"{cur}.{kw.arg}":
-                    kind = f"+{e.left.value}"
-                elif isinstance(e, ast.Constant):
-                    kind = f"={e.value!r}"
-                else:
-                    kind = f"={unparse(e)}"
-                facts.append((kw.arg, kind, pc.reach(n.id), n.ast))
-    ctx.floor("R1", "field updates in _incr_numeric", len(facts), 9)
-    params = [p for p in inc.params if p in ("major", "minor", "patch", "tag", "tag_num", "pin_increments")]
-    ctx.require(len(params) == 6, "_incr_numeric lost a flag parameter")
+    ev1 = incr_numeric_eval(ctx)
+    if ev1 is not None:
+        ctx.check("R1", not ev1, f"_incr_numeric: each flag bumps its own part by one, --tag sets both tag forms and restarts NUM on a change, INC0/INC1 advance unless pinned, "
+                  f"the result goes through the rollover reset ({ctx.notes.get('incr_numeric_cases')} flag / tag / build id combinations evaluated)",
+                  "v2version._incr_numeric: the bumped record is not what the flags prescribe", "; ".join(ev1[:2]), loc=prog.function("v2version._incr_numeric").loc(),
+                  witness={"case": ev1[0].split(":")[0] if ev1 else ""})
+    # the statement-by-statement reading of the same function (which update under which flag) decides when the body cannot be evaluated
+    if ev1 is None:
+        inc = prog.function("v2version._incr_numeric")
+        ctx.visit(inc.fq)
+        cfg = cfgs.get(inc.fq)
+        pc = PathCond(cfg)
+        cur = "cur_vinfo"
+        ctx.require(cur in inc.params, "_incr_numeric lost its cur_vinfo parameter")
+        facts: T.List[T.Tuple[str, str, BF, ast.AST]] = []
+        for n in cfg.nodes:
+            if n.kind != "stmt" or not isinstance(n.ast, ast.Assign) or n.id not in cfg.reachable():
+                continue
+            v = n.ast.value
+            if isinstance(v, ast.Call) and isinstance(v.func, ast.Attribute) and v.func.attr == "_replace" and unparse(v.func.value) == cur \
+                    and unparse(n.ast.targets[0]) == cur:
+                for kw in v.keywords:
+                    ctx.require(kw.arg is not None, "_incr_numeric: _replace(**...) not enumerated")
+                    e = shapes.resolve_alias(inc, kw.value)
+                    if isinstance(e, ast.BinOp) and isinstance(e.op, ast.Add) and unparse(e.left) == f"{cur}.{kw.arg}" and isinstance(e.right, ast.Constant):
+                        kind = f"+{e.right.value}"
+                    elif isinstance(e, ast.BinOp) and isinstance(e.op, ast.Add) and isinstance(e.left, ast.Constant) and unparse(e.right) == f"{cur}.{kw.arg}":
+                        kind = f"+{e.left.value}"
+                    elif isinstance(e, ast.Constant):
+                        kind = f"={e.value!r}"
+                    else:
+                        kind = f"={unparse(e)}"
+                    facts.append((kw.arg, kind, pc.reach(n.id), n.ast))
+        ctx.floor("R1", "field updates in _incr_numeric", len(facts), 9)
+        params = [p for p in inc.params if p in ("major", "minor", "patch", "tag", "tag_num", "pin_increments")]
+        ctx.require(len(params) == 6, "_incr_numeric lost a flag parameter")
 
-    def cond_of(field: str, kindpred: T.Callable[[str], bool]) -> T.Tuple[BF, T.List[str]]:
-        f = BF.false()
-        kinds = []
-        for fld, kind, r, _n in facts:
-            if fld == field and kindpred(kind):
-                f = f | r
-                kinds.append(kind)
-        return f, kinds
+        def cond_of(field: str, kindpred: T.Callable[[str], bool]) -> T.Tuple[BF, T.List[str]]:
+            f = BF.false()
+            kinds = []
+            for fld, kind, r, _n in facts:
+                if fld == field and kindpred(kind):
+                    f = f | r
+                    kinds.append(kind)
+            return f, kinds
 
-    for field, flag in EXPECT_INCR.items():
-        got, kinds = cond_of(field, lambda k: k.startswith("+"))
-        got = got.project(params)
-        ctx.check("R1", got.equiv(BF.var(flag)) and kinds == ["+1"],
-                  f"_incr_numeric: {field} := {field} + 1 exactly when `{flag}`  [{got.to_dnf()}, {kinds}]",
-                  f"v2version._incr_numeric: field '{field}' is not incremented by 1 under exactly --{flag.replace('_', '-')}",
-                  f"incremented {kinds} when {got.to_dnf()}; required +1 iff {flag}", loc=inc.loc(), witness=got.diff_witness(BF.var(flag)))
-    for field in ("inc0", "inc1"):
-        got, kinds = cond_of(field, lambda k: k.startswith("+"))
-        got = got.project(params)
-        ctx.check("R1", got.equiv(~BF.var("pin_increments")) and kinds == ["+1"],
-                  f"_incr_numeric: {field} := {field} + 1 exactly when not pin_increments",
-                  f"v2version._incr_numeric: auto-increment '{field}' is not +1 exactly unless pinned", f"{kinds} when {got.to_dnf()}", loc=inc.loc())
-    got, kinds = cond_of("tag", lambda k: k == "=tag")
-    ctx.check("R1", got.project(params).equiv(BF.var("tag")), "_incr_numeric: tag := tag exactly when --tag is given",
-              "v2version._incr_numeric: release tag not set exactly under --tag", f"{kinds} when {got.to_dnf()}", loc=inc.loc())
-    got, kinds = cond_of("pytag", lambda k: "PEP440_TAG_BY_TAG[tag]" in k)
-    ctx.check("R1", got.project(params).equiv(BF.var("tag")), "_incr_numeric: pytag := PEP440_TAG_BY_TAG[tag] exactly when --tag is given",
-              "v2version._incr_numeric: pytag not derived from the new tag under --tag", f"{kinds} when {got.to_dnf()}", loc=inc.loc())
-    got, kinds = cond_of("num", lambda k: k == "=0")
-    neq = [a for a in got.atoms if a.replace(" ", "") in (f"tag=={cur}.tag", f"{cur}.tag==tag")]
-    ok = len(neq) == 1 and got.project(params + neq).equiv(BF.var("tag") & ~BF.var(neq[0]))
-    ctx.check("R1", ok, "_incr_numeric: num := 0 exactly when --tag changes the tag",
-              "v2version._incr_numeric: NUM is not reset exactly when the tag changes", f"{kinds} when {got.to_dnf()}", loc=inc.loc())
-    known = set(EXPECT_INCR) | {"inc0", "inc1", "tag", "pytag", "bid"}
-    for fld, kind, r, node in facts:
-        if fld not in known:
-            ctx.bad("R1", f"v2version._incr_numeric: unexpected update of field '{fld}'", f"`{unparse(node)}`", loc=inc.loc(node))
-        elif fld in EXPECT_INCR and kind not in ("+1", "=0"):
-            ctx.bad("R1", f"v2version._incr_numeric: field '{fld}' updated by {kind}", f"`{unparse(node)}`", loc=inc.loc(node))
-    # result goes through the reset
-    rets = [n for n in walk_no_nested(inc.node) if isinstance(n, ast.Return)]
-    ok = len(rets) == 1 and isinstance(rets[0].value, ast.Call) and unparse(rets[0].value.func) == "_reset_rollover_fields" \
-        and [unparse(a) for a in rets[0].value.args] == ["raw_pattern", "old_vinfo", cur]
-    ctx.check("R1", ok, "_incr_numeric returns _reset_rollover_fields(raw_pattern, old_vinfo, cur_vinfo)",
-              "v2version._incr_numeric: result does not go through the rollover reset", unparse(rets[0]) if rets else "", loc=inc.loc())
+        for field, flag in EXPECT_INCR.items():
+            got, kinds = cond_of(field, lambda k: k.startswith("+"))
+            got = got.project(params)
+            ctx.check("R1", got.equiv(BF.var(flag)) and kinds == ["+1"],
+                      f"_incr_numeric: {field} := {field} + 1 exactly when `{flag}`  [{got.to_dnf()}, {kinds}]",
+                      f"v2version._incr_numeric: field '{field}' is not incremented by 1 under exactly --{flag.replace('_', '-')}",
+                      f"incremented {kinds} when {got.to_dnf()}; required +1 iff {flag}", loc=inc.loc(), witness=got.diff_witness(BF.var(flag)))
+        for field in ("inc0", "inc1"):
+            got, kinds = cond_of(field, lambda k: k.startswith("+"))
+            got = got.project(params)
+            ctx.check("R1", got.equiv(~BF.var("pin_increments")) and kinds == ["+1"],
+                      f"_incr_numeric: {field} := {field} + 1 exactly when not pin_increments",
+                      f"v2version._incr_numeric: auto-increment '{field}' is not +1 exactly unless pinned", f"{kinds} when {got.to_dnf()}", loc=inc.loc())
+        got, kinds = cond_of("tag", lambda k: k == "=tag")
+        ctx.check("R1", got.project(params).equiv(BF.var("tag")), "_incr_numeric: tag := tag exactly when --tag is given",
+                  "v2version._incr_numeric: release tag not set exactly under --tag", f"{kinds} when {got.to_dnf()}", loc=inc.loc())
+        got, kinds = cond_of("pytag", lambda k: "PEP440_TAG_BY_TAG[tag]" in k)
+        ctx.check("R1", got.project(params).equiv(BF.var("tag")), "_incr_numeric: pytag := PEP440_TAG_BY_TAG[tag] exactly when --tag is given",
+                  "v2version._incr_numeric: pytag not derived from the new tag under --tag", f"{kinds} when {got.to_dnf()}", loc=inc.loc())
+        got, kinds = cond_of("num", lambda k: k == "=0")
+        neq = [a for a in got.atoms if a.replace(" ", "") in (f"tag=={cur}.tag", f"{cur}.tag==tag")]
+        ok = len(neq) == 1 and got.project(params + neq).equiv(BF.var("tag") & ~BF.var(neq[0]))
+        ctx.check("R1", ok, "_incr_numeric: num := 0 exactly when --tag changes the tag",
+                  "v2version._incr_numeric: NUM is not reset exactly when the tag changes", f"{kinds} when {got.to_dnf()}", loc=inc.loc())
+        known = set(EXPECT_INCR) | {"inc0", "inc1", "tag", "pytag", "bid"}
+        for fld, kind, r, node in facts:
+            if fld not in known:
+                ctx.bad("R1", f"v2version._incr_numeric: unexpected update of field '{fld}'", f"`{unparse(node)}`", loc=inc.loc(node))
+            elif fld in EXPECT_INCR and kind not in ("+1", "=0"):
+                ctx.bad("R1", f"v2version._incr_numeric: field '{fld}' updated by {kind}", f"`{unparse(node)}`", loc=inc.loc(node))
+        # result goes through the reset
+        rets = [n for n in walk_no_nested(inc.node) if isinstance(n, ast.Return)]
+        ok = len(rets) == 1 and isinstance(rets[0].value, ast.Call) and unparse(rets[0].value.func) == "_reset_rollover_fields" \
+            and [unparse(a) for a in rets[0].value.args] == ["raw_pattern", "old_vinfo", cur]
+        ctx.check("R1", ok, "_incr_numeric returns _reset_rollover_fields(raw_pattern, old_vinfo, cur_vinfo)",
+                  "v2version._incr_numeric: result does not go through the rollover reset", unparse(rets[0]) if rets else "", loc=inc.loc())
 
     # ---------------------------------------------------------------- R2
     same = {k: k for k in OPTIONS}
@@ -525,6 +533,94 @@ def none_filter_rule(ctx, eng: str, rule: str) -> bool:
     ctx.check(rule, ok, f"{eng}._is_cal_gt returns <collected left values> > <collected right values> (lexicographic, strict)",
               f"{eng}._is_cal_gt: comparison is not `left > right`", unparse(rets[0]) if rets else "", loc=gt.loc())
     return False
+
+
+def incr_numeric_eval(ctx) -> T.Optional[T.List[str]]:
+    """v2version._incr_numeric evaluated on an abstract version record for every combination of --major / --minor / --patch /
+    --tag-num / --pin-increments, three --tag cases (none, the current tag, another tag) and five build ids (four digits, three
+    digits with a leading zero, one digit, 0999, 01000): each flag adds 1 to its own field and to nothing else, --tag sets tag and pytag and
+    restarts NUM when the tag changes, INC0 / INC1 advance unless pinned, the build id is padded below 1000 and always replaced
+    by its lexid successor, and the result is what _reset_rollover_fields makes of (raw_pattern, old record, that record).
+    Returns the mismatches, None when the body is outside what the evaluator handles."""
+    import itertools
+    from sa.model import Abstract, CannotFold, EvalError
+    prog = ctx.prog
+    inc = prog.function("v2version._incr_numeric")
+    names = prog.klass("version.V2VersionInfo").fields
+    t2p = prog.const("version", "PEP440_TAG_BY_TAG")
+    want_params = ["raw_pattern", "old_vinfo", "cur_vinfo", "major", "minor", "patch", "tag", "tag_num", "pin_increments"]
+    if inc.params != want_params:
+        # renamed parameters are undone by the normaliser; another signature is not this function any more
+        if len(inc.params) != len(want_params):
+            return None
+
+    class Rec(Abstract):
+        def __init__(self, d: T.Dict[str, T.Any]):
+            self.__dict__["d"] = dict(d)
+
+        def __getattr__(self, k: str) -> T.Any:
+            try:
+                return self.__dict__["d"][k]
+            except KeyError:
+                raise AttributeError(k)
+
+        def _asdict(self) -> T.Dict[str, T.Any]:
+            return dict(self.d)
+
+        def _replace(self, **kw: T.Any) -> "Rec":
+            if set(kw) - set(self.d):
+                raise ValueError(f"unexpected field names {sorted(set(kw) - set(self.d))}")
+            return Rec(dict(self.d, **kw))
+    base = {n_: None for n_ in names}
+    base.update({"year_y": 2020, "major": 3, "minor": 4, "patch": 5, "num": 2, "inc0": 7, "inc1": 8, "tag": "rc", "pytag": "rc"})
+    wrong: T.List[str] = []
+    n = 0
+    try:
+        p = inc.params
+        for major, minor, patch, tag_num, pin in itertools.product((False, True), repeat=5):
+            for tag in (None, "rc", "beta"):
+                for bid in ("1001", "0998", "7", "0999", "01000", "09999"):
+                    old = Rec(dict(base, bid=bid))
+                    cur = Rec(dict(base, bid=bid, year_y=2021))
+                    seen: T.List[T.Any] = []
+
+                    def reset(f: T.Any, node: ast.Call, seen: T.List[T.Any] = seen) -> T.Any:
+                        a_ = [f(x) for x in node.args] + [f(k.value) for k in node.keywords]
+                        seen.append(a_)
+                        return a_[-1]
+                    env = dict(zip(p, ("PATTERN", old, cur, major, minor, patch, tag, tag_num, pin)))
+                    env.update({"__strict__": True, "__stubs__": {"_reset_rollover_fields": reset, "lexid.next_id": lambda f, node: "next(" + str(f(node.args[0])) + ")"}})
+                    try:
+                        got, _ys = prog.run_body(inc, env)
+                        got_d = got._asdict() if isinstance(got, Rec) else got
+                    except EvalError as ex:
+                        got_d = f"raises: {ex}"
+                    want = dict(cur.d)
+                    for fld, flag in (("major", major), ("minor", minor), ("patch", patch), ("num", tag_num)):
+                        if flag:
+                            want[fld] += 1
+                    if tag:
+                        if tag != cur.d["tag"]:
+                            want["num"] = 0
+                        want["tag"], want["pytag"] = tag, t2p[tag]
+                    if not pin:
+                        want["inc0"] += 1
+                        want["inc1"] += 1
+                    padded = bid if int(bid) >= 1000 else str(int(bid) + 1000)
+                    want["bid"] = "next(" + padded + ")"
+                    n += 1
+                    # ... and it is the finished record that goes through the reset (nothing is changed after it)
+                    given = seen[0][2]._asdict() if len(seen) == 1 and len(seen[0]) == 3 and isinstance(seen[0][2], Rec) else None
+                    ok = got_d == want and len(seen) == 1 and seen[0][0] == "PATTERN" and seen[0][1] is old and given == want
+                    if not ok and len(wrong) < 3:
+                        flags = [k for k, v in (("--major", major), ("--minor", minor), ("--patch", patch), ("--tag-num", tag_num), ("--pin-increments", pin)) if v] + ([f"--tag {tag}"] if tag else [])
+                        diff = {k: (got_d.get(k), v) for k, v in want.items() if got_d.get(k) != v} if isinstance(got_d, dict) else got_d
+                        wrong.append(f"{' '.join(flags) or 'no flag'}, build id {bid}: {diff if diff else 'the result does not go through _reset_rollover_fields(raw_pattern, old_vinfo, <bumped record>)'} (got, expected)")
+    except (CannotFold, TypeError, AttributeError, KeyError, ValueError, IndexError) as ex:
+        ctx.observe(f"{inc.fq} not evaluated ({type(ex).__name__}: {str(ex)[:80]})")
+        return None
+    ctx.notes["incr_numeric_cases"] = n
+    return wrong
 
 
 def reset_rollover_eval(ctx, rule: str) -> None:
